@@ -87,8 +87,12 @@ def guard_dominates_writes(rep, prog, cls, rule, guard_call, exempt, when_true_t
             continue
         fn = fns[0]
         w = member_writes(fn)
-        # writes done by callees that are themselves guarded public setters are fine (set_x_by_label -> set_x)
-        F = cppflow.Flow(fn)
+        # writes done by callees that are themselves guarded public setters are fine (set_x_by_label -> set_x); a guard folded
+        # into a private helper (`_check_not_initialized_("set_x")`) is seen by expanding private helpers
+        try:
+            F = cppflow.Flow(fn, helpers=cppflow.private_helpers(prog, fn))
+        except AnalysisBroken:
+            F = cppflow.Flow(fn)
         guards = [(b, arm) for b, arm in F.throw_guards()
                   if any(nm.endswith(guard_call) for nm, _ in F.calls_in(b)) or cppflow.mentions(b.stmt[1], '_initialized_')]
         wnodes = [x for x in F.g.nodes if x.kind in ('assign', 'call') and _writes_member(x)]
